@@ -229,6 +229,33 @@ func (playlistSlice) Corpus() [][]string {
 	for _, m := range []*playlist.Media{f1, f2, f3} {
 		out = append(out, []string{"mar " + plCanon(m)})
 	}
+	// EXHAUSTIVE presence enumeration (runs once, in the first shard): all 4096 subsets of the
+	// media-level optional tags, and every subset of the optional fields of each tag type
+	// (SERVER-CONTROL 8, MAP 4, segment 256, KEY 3x8, PART 16, PRELOAD-HINT 4); scalars from fixed seeds.
+	add := func(m *playlist.Media) {
+		if why := plValid(m); why != "" {
+			panic("corpus generator produced an invalid value: " + why)
+		}
+		cur = append(cur, "mar "+plCanon(m))
+		if b, err, pan := plSafeMarshal(m); pan == nil && err == nil {
+			cur = append(cur, "unm "+hexOrDash(b))
+		}
+		if len(cur) >= 16 {
+			flush()
+		}
+	}
+	for mask := 0; mask < 4096; mask++ {
+		g := &plG{r: rand.New(rand.NewSource(int64(1_000_000 + mask))), tags: map[string]bool{}}
+		add(g.media(mask))
+	}
+	need := map[string]int{"sc": 1 << 3, "map": 1 << 7, "seg": 0, "key": 0, "part": 1 << 9, "ph": 1 << 10}
+	for _, f := range plFocus {
+		for sub := 0; sub < f.n; sub++ {
+			g := &plG{r: rand.New(rand.NewSource(int64(2_000_000 + sub))), focus: f.name, sub: sub, tags: map[string]bool{}}
+			add(g.media(g.r.Intn(4096) | need[f.name]))
+		}
+	}
+	flush()
 	return out
 }
 
@@ -817,11 +844,11 @@ func (playlistSlice) Gen(r *rand.Rand, i int, tier string) ([]string, []string) 
 	g.focus, g.sub = f.name, (i/len(plFocus))%f.n
 	kind := i % 10
 	switch {
-	case kind < 5: // three valid values: media-level presence masks 3k, 3k+1, 3k+2 of a running enumeration (all 4096 per 2731 cases)
+	case kind < 5: // two valid values with random presence masks (the exhaustive enumeration is in Corpus)
 		g.tag("kind=valid-value")
 		g.tag("focus=" + g.focus)
-		for j := 0; j < 3; j++ {
-			bits := ((i/10*5+kind)*3 + j) % 4096
+		for j := 0; j < 2; j++ {
+			bits := r.Intn(4096)
 			m := g.media(bits)
 			if why := plValid(m); why != "" {
 				panic("generator produced an invalid value: " + why)
